@@ -61,12 +61,13 @@ class Session:
         cmd = ["cargo", "+nightly", "rustc", "--offline", "--lib", "--no-default-features", "--features", self.features,
                "--", "-Zunpretty=mir", "-C", "debug-assertions=off", "-C", f"overflow-checks={'on' if self.overflow else 'off'}"]
         t = time.time()
-        with open(out + ".tmp", "w") as f:
+        tmp = out + f".tmp{os.getpid()}"
+        with open(tmp, "w") as f:
             p = subprocess.run(cmd, cwd=common.REPO, stdout=f, stderr=subprocess.PIPE, text=True,
                                env=dict(os.environ, CARGO_TARGET_DIR=tdir, CARGO_NET_OFFLINE="true"))
-        if p.returncode != 0 or os.path.getsize(out + ".tmp") < 1000000:
+        if p.returncode != 0 or os.path.getsize(tmp) < 1000000:
             raise Unencodable("MIR dump failed: " + p.stderr[-2000:])
-        os.replace(out + ".tmp", out)
+        os.replace(tmp, out)
         open(stamp, "w").write(fp)
         return out, time.time() - t
 
@@ -227,7 +228,7 @@ class Discharger:
         r = s.check()
         dt = time.time() - t
         if r == z3.unsat and self.cvc5_cross:
-            r2 = cvc5_check(s.to_smt2())
+            r2 = cvc5_check(_renamed_smt2(s))
             if r2 not in ("unsat",):
                 self.inconclusive.append(f"{name}: z3 unsat but cvc5 says {r2}")
                 self.ev.obligation(name, False, dt, detail={"z3": "unsat", "cvc5": r2})
@@ -300,6 +301,30 @@ class Discharger:
         return s.check() == z3.sat
 
 
+def _renamed_smt2(solver):
+    """the solver's assertions with every uninterpreted constant renamed k0, k1, ...: our descriptive term names contain
+    characters (|, backslash) that SMT-LIB quoted symbols cannot carry"""
+    consts, seen = {}, set()
+
+    def walk(e):
+        if e.get_id() in seen:
+            return
+        seen.add(e.get_id())
+        if z3.is_const(e) and e.decl().kind() == z3.Z3_OP_UNINTERPRETED:
+            consts.setdefault(e.get_id(), e)
+        elif z3.is_app(e) and e.decl().kind() == z3.Z3_OP_UNINTERPRETED:
+            raise Unencodable(f"cvc5 cross-check: uninterpreted function {e.decl().name()} (renaming handles constants only)")
+        for c in e.children():
+            walk(c)
+    for a in solver.assertions():
+        walk(a)
+    sub = [(e, z3.Const(f"k{i}", e.sort())) for i, e in enumerate(consts.values())]
+    s2 = z3.Solver()
+    for a in solver.assertions():
+        s2.add(z3.substitute(a, *sub) if sub else a)
+    return s2.to_smt2()
+
+
 def cvc5_check(smt2, timeout_s=60):
     txt = "(set-logic ALL)\n" + smt2 + "\n(check-sat)\n" if "(check-sat)" not in smt2 else "(set-logic ALL)\n" + smt2
     try:
@@ -308,6 +333,9 @@ def cvc5_check(smt2, timeout_s=60):
         return f"error:{e}"
     out = p.stdout.strip().splitlines()
     if any(l.startswith("(error") for l in out) or "(error" in p.stderr:
+        if os.environ.get("VERIF_KEEP_CVC5"):
+            with open(os.path.join(os.environ["VERIF_KEEP_CVC5"], f"cvc5-{abs(hash(txt))}.smt2"), "w") as f:
+                f.write(txt)
         return "error:" + (p.stdout + p.stderr)[:200]
     return out[-1] if out else "error:no output"
 
